@@ -139,7 +139,12 @@ class FilReader(Filterbank):
         samples_read = np.zeros(self.header.nchans, dtype=int)
         data = np.zeros((self.header.nchans, nsamps), dtype=self._file.bitsinfo.dtype)
 
-        for isamp in track(range(nsamps), description="Reading dedispersed data ..."):
+        # the last channel window ends at max_sample.max(): read up to there
+        nsamps_read = int(max_sample.max()) - start
+        for isamp in track(
+            range(nsamps_read),
+            description="Reading dedispersed data ...",
+        ):
             samples_offset = start + isamp
             relevant_chans = np.argwhere(
                 np.logical_and(
@@ -147,13 +152,16 @@ class FilReader(Filterbank):
                     min_sample <= samples_offset,
                 ),
             ).flatten()
+            # Read channel data for for each sample
+            sample_data = self._file.cread(self.header.nchans)
+            if relevant_chans.size == 0:
+                # between the windows of two channels (delay step > nsamps)
+                continue
             chans_slice = np.arange(
                 relevant_chans.min(),
                 relevant_chans.max() + 1,
                 dtype=int,
             )
-            # Read channel data for for each sample
-            sample_data = self._file.cread(self.header.nchans)
             data[chans_slice, samples_read[chans_slice]] = sample_data[chans_slice]
 
             # Update sample counts
